@@ -20,7 +20,7 @@ def _empty(oid):
     return {'oid': oid, 'paths': 0, 'claims': 0, 'trivial': 0, 'unsat': 0, 'sat': 0, 'unknown': 0, 'violations': [], 'known': [],
             'unconfirmed': [], 'harness_errors': [], 'inconclusive': [], 'validated': 0, 'replays': 0, 'samples': [], 'solver_s': 0.0,
             'wall_s': 0.0, 'decisions': 0, 'feas_queries': 0, 'feas_unknown': 0, 'reach': 0, 'bounds': '', 'stubs': [], 'funcs': [],
-            'exc_paths': 0, 'notes': []}
+            'exc_paths': 0, 'notes': [], 'cases': 1}
 
 
 def load_module(path):
